@@ -186,6 +186,10 @@ func checkSubst(r *core.Run, dialect, stmt string) {
 	case "same", "unparseable", "nothing":
 		return
 	}
+	if dialect == "pg" && word == "diff" && HasSubLinkRightOperand(stmt) {
+		r.Fail("pgroundtrip-diff:sublink-right-operand", fmt.Sprintf("%s ⇒ %s", trunc(stmt), trunc(decodePrinted(out))))
+		return
+	}
 	r.Fail("subst-"+word+":"+dialect, fmt.Sprintf("after value substitution the printed statement does not parse back to the substituted tree [%s]: %s ⇒ %s", dialect, trunc(stmt), trunc(decodePrinted(out))))
 }
 
@@ -202,6 +206,10 @@ func checkPgRoundTrip(r *core.Run, stmt, source string) {
 	}
 	if stmtKind(stmt) != "dml" {
 		r.Tag("pg-non-dml-" + word)
+		return
+	}
+	if word == "diff" && HasSubLinkRightOperand(stmt) {
+		r.Fail("pgroundtrip-diff:sublink-right-operand", fmt.Sprintf("%s ⇒ %s", trunc(stmt), trunc(decodePrinted(out))))
 		return
 	}
 	r.Fail("pgroundtrip-"+word, fmt.Sprintf("pg_query: Parse(Deparse(Parse s)) ≠ Parse s [%s]: %s ⇒ %s", source, trunc(stmt), trunc(decodePrinted(out))))
@@ -350,8 +358,28 @@ var spliceTemplates = []string{
 	"select a from t limit {E}",
 }
 
+// corpus: failing inputs of the defects found on the pinned tree (fixed or known), run first on every run
+var corpus = []struct{ dialect, stmt string }{
+	{"pg", `select "a""a" from t where "b""c"."d""e" = 1`},
+	{"pg", `select "T"."a""a" from "T"`},
+	{"my", "select group_concat(a separator 'it''s') from t"},
+	{"my", `select group_concat(a order by b separator '\\ \' x') from t`},
+	{"my", `select a from t where b > now() - interval "1" hour`},
+	{"pg", "select 1 + (b in (select c from u)) from t"},
+	{"pg", "update t set b = 2 * (b > all (select c from u)) where c = 1"},
+}
+
 func runStatements(r *core.Run) {
 	rd := r.Rand
+	for i, w := range corpus {
+		r.Begin(fmt.Sprintf("corpus-%d", i), true, "stream:corpus")
+		if checkRoundTrip(r, w.dialect, w.stmt, "corpus") {
+			checkSubst(r, w.dialect, w.stmt)
+			if w.dialect == "pg" {
+				checkPgRoundTrip(r, w.stmt, "corpus")
+			}
+		}
+	}
 	// (a) Acra's own tables
 	table := testTableStatements()
 	if len(table) < 400 {
